@@ -243,3 +243,83 @@ def run(ctx):
         "the 2^63 / 2^64 boundaries are covered by recorded traces in band encoding",
         "the custom backend of the harness stands for 'any implementation relying on the provided default methods'",
     ]
+
+
+# ---------------------------------------------------------------------------
+# C14: scripted streams
+# ---------------------------------------------------------------------------
+def rnd_script(rnd):
+    n = rnd.choice([0, 1, 1, 2, 2, 3, 4, 5, 6])
+    out = []
+    for _ in range(n):
+        k = rnd.random()
+        if k < 0.3:
+            out.append({"b": "short", "k": rnd.choice([1, 1, 2, 3, 5, 8, 9])})
+        elif k < 0.55:
+            out.append({"b": "eintr"})
+        elif k < 0.7:
+            out.append({"b": "full"})
+        elif k < 0.85:
+            out.append({"b": "zero"})
+        else:
+            out.append({"b": "err"})
+    return out
+
+
+def rnd_history_c14(rnd, nops):
+    be = rnd.choice(["mmap", "mmap", "custom", "mmapfile"])
+    p = rnd.choice([1, 2, 8, 4096])
+    lay = rnd_layout(rnd, be)
+    prog = [{"op": "init", "a": {"be": be, "p": p, "lay": lay}}]
+    for _ in range(nops):
+        s, n = rnd.choice(lay)
+        addr = min(max(rnd.choice([s - 1, s, s + 1, s + n - 1, s + n, s + n // 2, s + rnd.randint(0, n)]), 0), U64 - 1)
+        count = rnd.choice([0, 1, 2, 3, n - 1, n, n + 1, n + 2, n + 9, 2 * n + 3, rnd.randint(0, 60)])
+        ri = rnd.randint(1, len(lay))
+        rn = lay[ri - 1][1]
+        if rnd.random() < 0.6:
+            op = rnd.choice(["s_read_from", "s_read_exact_from", "s_write_to", "s_write_all_to"])
+            a = {"addr": addr, "count": count, "script": rnd_script(rnd)}
+        else:
+            op = rnd.choice(["rs_read_from", "rs_read_exact_from", "rs_write_to", "rs_write_all_to"])
+            a = {"ri": ri, "addr": rnd.choice([0, 1, rn - 1, rn, rn + 1, rn // 2]), "count": rnd.choice([0, 1, 2, rn - 1, rn, rn + 1, 7]),
+                 "script": rnd_script(rnd)}
+        prog.append({"op": op, "a": a})
+    return prog
+
+
+def run_c14(ctx):
+    r = tlc_must_pass(TLA, os.path.join(SPEC, "MC_GuestMem.c14.cfg"), "mc_guest_c14", workers=8, timeout=3000)
+    ctx.add_mc(r, "MC_GuestMem.c14.cfg")
+    ctx.cov["exhaustive"] = True
+    cfgs = ["Gen_GuestMem.c14q.cfg"] if ctx.tier == "quick" else ["Gen_GuestMem.c14q.cfg", "Gen_GuestMem.c14t.cfg"]
+    for cfg in cfgs:
+        r = tlc_must_pass(TLA, os.path.join(SPEC, cfg), "gen_guest_c14", workers=8, timeout=3000)
+        ctx.add_mc(r, cfg)
+        inits = parse_tagged(r.out_path, "INIT")
+        edges = [e for e in parse_tagged(r.out_path, "EDGE") if e[0]["act"]["op"].startswith(("s_", "rs_"))]
+        hists, covered = edges_to_histories(inits, edges, chunk=400)
+        prog = [{"op": a["op"], "a": a["a"]} for h in hists for a in h]
+        events = run_harness("guest", prog, os.path.join(WORK, "gen_guest_c14.ev.ndjson"))
+        judge_chunks(ctx, "gent_guest_c14", events, 120000)
+        ctx.cov["gen_tests_replayed"] += covered
+        ctx.cov["traces_validated_against_impl"] += len(hists)
+        ctx.cov.setdefault("gen_edges", 0)
+        ctx.cov["gen_edges"] += len(edges)
+        ctx.sample({"kind": "spec-generated scripted-stream tests from one state", "config": cfg,
+                    "steps": [x for x in hists[len(hists) // 2] if x["op"] != "init"][:5]})
+        log("[gen] %s: %d scripted edges -> %d histories, %d events" % (cfg, len(edges), len(hists), len(events)))
+    nhist, nops = (300, 40) if ctx.tier == "quick" else (5000, 60)
+    prog = []
+    for _ in range(nhist):
+        prog += rnd_history_c14(ctx.rnd, nops)
+    events = run_harness("guest", prog, os.path.join(WORK, "tr_guest_c14.ev.ndjson"))
+    judge_chunks(ctx, "tr_guest_c14", events)
+    ctx.cov["traces_validated_against_impl"] += nhist
+    ctx.sample({"kind": "recorded scripted-stream history validated by Trace_GuestMem", "events":
+                [{"op": e["op"], "a": e["a"], "r": e["r"]} for e in events[1:5]]})
+    ctx.assumptions += [
+        "scripts are enumerated exhaustively up to length 2 (quick) / 4 (thorough) over {full, short 1, short 2, zero, eintr, err}; "
+        "longer scripts and other short counts are sampled",
+        "slice-level transfers are exercised through the region level (GuestRegionMmap and the custom backend both delegate to VolatileSlice)",
+    ]
